@@ -302,6 +302,38 @@ fn main() {
                     _ => "UNKNOWN".to_string(),
                 }
             }
+            // rowde <kind> <column names,..|-> <cells: i32|n,..|->: derived DeserializeRow: type_check, then deserialize of one row
+            "rowde" => {
+                use scylla_cql_core::deserialize::row::{ColumnIterator, DeserializeRow};
+                use scylla_cql_core::deserialize::FrameSlice;
+                use scylla_cql_core::frame::response::result::{ColumnSpec, TableSpec};
+                use vk_core::c16_types::*;
+                let names: Vec<&str> = a[2].split(',').filter(|s| *s != "-").collect();
+                let specs: Vec<ColumnSpec> = names.iter().map(|n| ColumnSpec::owned(n.to_string(), ColumnType::Native(NativeType::Int), TableSpec::owned("k".into(), "t".into()))).collect();
+                let mut body: Vec<u8> = Vec::new();
+                for c in a[3].split(',').filter(|s| *s != "-") {
+                    match c {
+                        "n" => body.extend_from_slice(&(-1i32).to_be_bytes()),
+                        v => { body.extend_from_slice(&4i32.to_be_bytes()); body.extend_from_slice(&v.parse::<i32>().unwrap().to_be_bytes()); }
+                    }
+                }
+                let bytes = bytes::Bytes::from(body);
+                fn go<'f, 'm, T: DeserializeRow<'f, 'm>>(specs: &'m [ColumnSpec<'m>], b: &'f bytes::Bytes, show: impl Fn(T) -> String) -> String {
+                    if T::type_check(specs).is_err() {
+                        return "TYPECK-ERR".to_string();
+                    }
+                    match T::deserialize(ColumnIterator::new(specs, FrameSlice::new(b))) {
+                        Ok(v) => format!("OK {}", show(v)),
+                        Err(_) => "ERR".to_string(),
+                    }
+                }
+                match a[1] {
+                    "R3" => go::<R3>(&specs, &bytes, |v| format!("{} {} {}", v.a, v.b, v.c)),
+                    "R3Ordered" => go::<R3Ordered>(&specs, &bytes, |v| format!("{} {} {}", v.a, v.b, v.c)),
+                    "R3RenameSkip" => go::<R3RenameSkip>(&specs, &bytes, |v| format!("{} {} {}", v.a, v.b, v.c)),
+                    _ => "UNKNOWN".to_string(),
+                }
+            }
             // errbody <negotiated rate-limit error code|-> <body hex|->: Error::deserialize of an ERROR body, rendered canonically (texts as written, ids in hex)
             "errbody" => {
                 use scylla_cql_core::frame::protocol_features::ProtocolFeatures;
